@@ -252,6 +252,9 @@ def _decide(prop, tier, seed, check, budget, results, failures, contracts, wall,
             samples.extend(r["samples"][:2])
         violations.extend(r["violations"])
         stopped += 1 if r["stopped_by_deadline"] else 0
+        if r.get("crash"):
+            failures.append(f"shard {r['shard']}: check code stopped on an unexpected exception after "
+                            f"{r['evaluations']} cases: {r['crash']}")
 
     known = load_known_findings(prop)
     lines, real, known_seen = [], [], Counter()
@@ -371,12 +374,19 @@ def worker_main(argv=None) -> int:
     ctx.note("backend", TrajectoryCalc.__module__)
     ctx.note("python", sys.version.split()[0])
     check = load_check(a.prop)
-    if a.replay:
-        with open(a.replay, encoding="utf-8") as fp:
-            rec = json.load(fp)
-        check.replay(ctx, rec["case"])
-    else:
-        check.run(ctx)
+    crash = None
+    try:
+        if a.replay:
+            with open(a.replay, encoding="utf-8") as fp:
+                rec = json.load(fp)
+            check.replay(ctx, rec["case"])
+        else:
+            check.run(ctx)
+    except BaseException:  # pylint: disable=broad-except
+        import traceback
+        crash = traceback.format_exc()[-2500:]
+    res = ctx.result()
+    res["crash"] = crash
     with open(a.out, "w", encoding="utf-8") as fp:
-        json.dump(ctx.result(), fp)
+        json.dump(res, fp)
     return 0
